@@ -2,7 +2,7 @@
 from . import common as C, chan
 
 MODULE = "AcqVerif.Props.C02"
-DRIVERS = ["acq_chan", "acq_conc", "AcqVerif.Props.ChanThreads", "AcqVerif.Channel.Translated"]
+DRIVERS = ["acq_chan", "acq_conc", "AcqVerif.Props.ChanThreads", "AcqVerif.Channel.Refine"]
 THEOREMS = ["AcqVerif.C02.%s" % t for t in (
     "write_region_in_buffer", "write_avoids_readers", "read_region_committed", "pending_write_disjoint",
     "mapped_reader_frame", "mapped_region_stable")] + ["AcqVerif.Channel.Inv.run"]
